@@ -36,6 +36,27 @@ def fit_case(draw, large=False):
     return {"spec": draw(E.kauri_spec(n_max=40, d_max=4)), "qseed": draw(gens.seeds)}
 
 
+@st.composite
+def many_clusters_case(draw):
+    """data with 8-14 real groups and as many clusters allowed: late splits move whole leaves between existing clusters"""
+    s = draw(E.kauri_spec(n_max=220, d_max=3, kinds=("blobs",)))
+    s["n"] = draw(st.integers(90, 220))
+    s["d"] = s["x"]["d"] = draw(st.integers(2, 3))
+    s["x"]["blobs"] = draw(st.integers(8, 14))
+    s["x"]["blob_range"] = draw(st.sampled_from([10.0, 6.0]))
+    s["x"]["blob_std"] = draw(st.sampled_from([1.0, 0.4, 2.0]))
+    s["x"]["blob_round"] = draw(st.booleans())
+    s["kernel"]["form"] = "named"
+    s["kernel"]["name"] = draw(st.sampled_from(["rbf", "linear", "laplacian", "rbf"]))
+    s["max_clusters"] = draw(st.integers(8, 14))
+    s["max_leaves"] = draw(st.sampled_from([None, 3 * s["max_clusters"], 2 * s["max_clusters"] - 1, s["max_clusters"] + 3]))
+    s["max_depth"] = draw(st.sampled_from([None, 8]))
+    s["min_samples_leaf"] = draw(st.sampled_from([1, 2]))
+    s["min_samples_split"] = 2 * s["min_samples_leaf"]
+    s["max_features"] = None
+    return {"spec": s, "qseed": draw(gens.seeds), "variants": ["so"]}
+
+
 def leaf_regions(t):
     """{leaf node: [(feature, is_left, threshold), ...]} from the array-encoded tree."""
     regions = {}
@@ -255,4 +276,5 @@ def oracle_fit(case):
 
 def subs():
     return [Sub("fits", fit_case(), oracle_fit, 800, 30000, "fitted trees x variants"),
+            Sub("fits_many_clusters", many_clusters_case(), oracle_fit, 800, 20000, "90-220 samples in 8-14 groups, 8-14 clusters allowed (imported extension only)"),
             Sub("fits_large", fit_case(large=True), oracle_fit, 40, 1200, "trees on 120-320 samples (deep trees; imported extension only)")]
